@@ -15,7 +15,7 @@ for s in $SEEDS; do
   patch=$d/patch.diff; [ -f $d/patch.rebased.diff ] && patch=$d/patch.rebased.diff
   git -C $W checkout -q -- . 
   if ! git -C $W apply $patch 2>/dev/null; then echo "$s: patch does not apply"; echo "patch does not apply to the current tree" > $d/detection.txt; continue; fi
-  own=${s%-*}
+  own=$(python3 -c "import json;print(json.load(open('$d/meta.json'))['breaks_property'])" 2>/dev/null); [ -z "$own" ] && own=${s%-*}
   PROPS="$own $(cat $d/also_check 2>/dev/null)"
   [ -n "$SEED_PROPS" ] && PROPS="$SEED_PROPS"
   [ "$SEED_PROPS" = "all" ] && PROPS="$ALL"
